@@ -16,7 +16,7 @@ LEVEL = {
     "C04": ("CLayout (Layout.tla) is the declarative C rule; TLC compares projected size/alignment/offsets of real classes, sizeof() evaluated by a real Expression, consumed and dumped byte counts with it; MC_Codec proves SizeAgree on the spec; MC_Layout proves the step machine mirroring the code's loop equal to CLayout and validates CLayout against ctypes (native C ABI) offsets.",
             "int24/48/128 have no C counterpart: their alignments are design constants. Bit-field placement is C06's."),
     "C09": ("Decode takes (bytes, start) and returns (value, end): position independence is a theorem of the spec (WindowOnly, InBounds in MC_Codec); recorded executions use random start offsets, prefixes and suffixes, every call form x input kind, and histories of consecutive parses on one stream; TLC checks value, position, recorded sizes and that all forms agree.",
-            "aligned structures are started at multiples of 16 only (the property's domain)."),
+            "aligned structures are started at arbitrary offsets too (alignment is relative to the structure's first byte; finding F35 repaired)."),
     "C05": ("Builtins.tla states what every built-in name denotes (from C / stdint / Windows SDK meaning), Codec.tla the encodings (two's complement on limbs, UTF-16 with surrogates, LEB128 with canonical form); MC_Scalar proves decode/encode inverse, the two's-complement value, and the per-byte LEB machine equal to the closed form exhaustively over boundary alphabets with an endianness switch between read and write; Trace_Scalar is a state machine whose only state is the byte order in force and judges recorded histories New/SetEndian/Read/Write on real cstruct objects, over every name in cs.typedefs and a structure compiled before the switches.",
             "IEEE-754 numeric interpretation is done by the projection (struct); @ and = are outside the domain."),
     "C06": ("MC_Bits is the BitBuffer as a state machine (one action per branch of read/write/flush) proved equal to the declarative partition rule and to Codec!Decode/Enc for all non-straddling width sequences (<=4 fields, unit sizes 1/2/4, 4 contents, both endiannesses); the enumerated bit-field family (13 storage types incl. signed/char/enum/flag/int24/48, neighbours, straddling sequences that must be rejected) and random definitions run through both readers and the writer and are judged by Trace_Codec.",
